@@ -337,10 +337,10 @@ func readOnly(doc *gedcom.Document, name string) (msg string) {
 			_ = n.String()
 		}
 	case "Compare":
-		// Compare works in goroutines of its own: a panic there (C14: a CHIL line that points at
-		// nothing) cannot be recovered, so it is only run on documents whose references resolve
+		// Compare works in goroutines of its own (a panic there cannot be recovered; the crash sites for
+		// dangling / wrong-kind references were repaired in /repo, see known_findings.json C14)
 		other, err := gedcom.NewDocumentFromString(doc.String())
-		if err == nil && refsResolve(doc) {
+		if err == nil {
 			opts := gedcom.NewIndividualNodesCompareOptions()
 			opts.Jobs = 1
 			_ = doc.Individuals().Compare(other.Individuals(), opts)
@@ -407,24 +407,6 @@ func readOnly(doc *gedcom.Document, name string) (msg string) {
 		return msg
 	}
 	return ""
-}
-
-func refsResolve(doc *gedcom.Document) bool {
-	for _, f := range doc.Families() {
-		for _, k := range f.Nodes() {
-			switch k.Tag().Tag() {
-			case "HUSB", "WIFE", "CHIL":
-				v := k.Value()
-				if len(v) < 3 || v[0] != '@' || v[len(v)-1] != '@' {
-					return false
-				}
-				if _, ok := doc.NodeByPointer(v[1 : len(v)-1]).(*gedcom.IndividualNode); !ok {
-					return false
-				}
-			}
-		}
-	}
-	return true
 }
 
 type Obs struct {
